@@ -17,7 +17,12 @@ Definition dec_raw (s : sx) : option (bytes * lrec) :=
   | SL [SB p; SN m; SN u; SN g; SN sz; SN mt; SN rdev; SN ino; SN nl; SB tgt; xs; SB _] =>
     x <- sx_list dec_xattr xs ;;
     Some (p, {| l_mode := m; l_uid := u; l_gid := g; l_size := sz; l_mtime := mt; l_rdev := rdev;
-                l_ino := ino; l_nlink := nl; l_target := tgt; l_xattrs := x |})
+                l_ino := ino; l_nlink := nl; l_target := tgt; l_xattrs := x; l_dev := 0 |})
+  (* kind 0903 appends st_dev *)
+  | SL [SB p; SN m; SN u; SN g; SN sz; SN mt; SN rdev; SN ino; SN nl; SB tgt; xs; SB _; SN dev] =>
+    x <- sx_list dec_xattr xs ;;
+    Some (p, {| l_mode := m; l_uid := u; l_gid := g; l_size := sz; l_mtime := mt; l_rdev := rdev;
+                l_ino := ino; l_nlink := nl; l_target := tgt; l_xattrs := x; l_dev := dev |})
   | _ => None
   end.
 
@@ -25,7 +30,7 @@ Definition dec_raw (s : sx) : option (bytes * lrec) :=
         their directory, so the tree handed to the model is NOT in sorted order. ---- *)
 Definition root_rec : lrec :=
   {| l_mode := 16877; l_uid := 0; l_gid := 0; l_size := 0; l_mtime := 0; l_rdev := 0; l_ino := 0;
-     l_nlink := 2; l_target := []; l_xattrs := [] |}.
+     l_nlink := 2; l_target := []; l_xattrs := []; l_dev := 0 |}.
 
 Fixpoint update_kid (n : bytes) (f : tree -> option tree) (kids : list (bytes * tree)) : option (list (bytes * tree)) :=
   match kids with
@@ -62,29 +67,53 @@ Definition spec_target (target : bytes) : bytes :=
 Definition cb_paths_ok (cbs : list (bytes * stat)) : bool :=
   forallb (fun e => bytes_eqb (fst e) (st_path (snd e))) cbs.
 
+(* common part of kinds 0901 / 0903: model = walk_at on the tree built from the snapshot;
+   specification = wf snapshot, no error, callback path = Stat.Path, and spec_walk_b (sorted /
+   exactly once / parents first / true stats incl. the hard-link rule) on the implementation's
+   callbacks against the snapshot restricted to the target. *)
+Definition walk_verdict (target : bytes) (snapx cbsx : sx) (err : N) (info : list (bytes * lrec) -> sx) : sx :=
+  match sx_list dec_raw snapx, sx_list dec_cb cbsx with
+  | Some snap, Some cbs =>
+    match build_tree (T root_rec []) snap with
+    | None => v_malformed
+    | Some t =>
+      let m := SL [SL (map (fun st => enc_cb (st_path st, st)) (walk_at t target)); SN 0] in
+      let tc := spec_target target in
+      let sp := wf_tree_b t && N.eqb err 0 && cb_paths_ok cbs
+                && spec_walk_b (parent_path tc) (snap_at snap tc) (map snd cbs) in
+      verdict m (SL [cbsx; SN err]) sp (info snap)
+    end
+  | _, _ => v_malformed
+  end.
+
 (* kind 0901: input = (view extra-links target api); api 0 = NewFS(dir).Walk(ctx, target, fn),
    1 = fsutil.WalkDir(dir, nil), 2 = fsutil.WalkDir(dir, &FilterOpt{}), 3 = fsutil.Walk(dir, nil)
-   (1-3 always walk "/").  impl = (snapshot callbacks err).
-   Model: walk_at.  Specification: wf snapshot, no error, callback path = Stat.Path, and
-   spec_walk_b (sorted / exactly once / parents first / true stats incl. the hard-link rule)
-   on the implementation's callbacks against the snapshot restricted to the target. *)
+   (1-3 always walk "/").  impl = (snapshot callbacks err). *)
 Definition run_0901 (input impl : sx) : sx :=
   match input, impl with
   | SL [_; _; SB target0; SN api], SL [snapx; cbsx; SN err] =>
-    match sx_list dec_raw snapx, sx_list dec_cb cbsx with
-    | Some snap, Some cbs =>
-      match build_tree (T root_rec []) snap with
-      | None => v_malformed
-      | Some t =>
-        let target := if N.eqb api 0 then target0 else [sep] in
-        let m := SL [SL (map (fun st => enc_cb (st_path st, st)) (walk_at t target)); SN 0] in
-        let tc := spec_target target in
-        let sp := wf_tree_b t && N.eqb err 0 && cb_paths_ok cbs
-                  && spec_walk_b (parent_path tc) (snap_at snap tc) (map snd cbs) in
-        verdict m (SL [cbsx; SN err]) sp (SL [])
-      end
-    | _, _ => v_malformed
-    end
+    walk_verdict (if N.eqb api 0 then target0 else [sep]) snapx cbsx err (fun _ => SL [])
+  | _, _ => v_malformed
+  end.
+
+(* kind 0903: input = (view1 view2 target): the two views are materialised on two separate tmpfs
+   mounts root/m1 and root/m2 (fresh file systems hand out the same inode numbers), the snapshot
+   entries carry st_dev as a 13th field.  impl = (snapshot callbacks err), or (#fffc msg) when the
+   sandbox cannot mount (then nothing is claimed).  Signature of the known defect: two
+   non-directories with equal st_ino on different devices. *)
+Definition cross_device_collision (snap : list (bytes * lrec)) : bool :=
+  existsb (fun a => existsb (fun b => negb (raw_is_dir (snd a)) && negb (raw_is_dir (snd b))
+                                      && N.eqb (l_ino (snd a)) (l_ino (snd b))
+                                      && negb (N.eqb (l_dev (snd a)) (l_dev (snd b)))) snap) snap.
+Definition sig_cross_device : sx :=
+  SL [SB [115; 105; 103];
+      SB [99; 114; 111; 115; 115; 45; 100; 101; 118; 105; 99; 101; 45; 105; 110; 111; 100; 101; 45; 99; 111; 108; 108; 105; 115; 105; 111; 110]].
+Definition run_0903 (input impl : sx) : sx :=
+  match input, impl with
+  | SL [_; _; SB target], SL [snapx; cbsx; SN err] =>
+    walk_verdict target snapx cbsx err
+                 (fun snap => if cross_device_collision snap then SL [sig_cross_device] else SL [])
+  | SL [_; _; SB _], SL [SN 65532; _] => v_ok
   | _, _ => v_malformed
   end.
 
